@@ -124,8 +124,11 @@ type c10Case struct {
 	Before   int    `json:"requests_before"`
 	Running  bool   `json:"handlers_running"`
 	Trailing string `json:"trailing"`
-	Peer     string `json:"peer"`           // silent | closes | not-reading
-	Lead     int    `json:"lead,omitempty"` // well-formed requests in the same segment, in front of the offending frame
+	Peer     string `json:"peer"` // silent | closes | not-reading
+	// ResetLatest: before the offence the peer resets the stream it opened last (whose handler is running, or has
+	// returned with its response held up by flow control, or is done)
+	ResetLatest bool `json:"peer_resets_latest_stream_first,omitempty"`
+	Lead        int  `json:"lead,omitempty"` // well-formed requests in the same segment, in front of the offending frame
 	// Blocked: the last request before the offence has been answered with more than the connection window holds, so
 	// its response is half sent when the error is raised; with Trailing "grant" the peer opens the window afterwards
 	Blocked bool `json:"response_flow_blocked,omitempty"`
@@ -192,6 +195,9 @@ func c10Exec(cs c10Case) (*fw.Violation, *harness.Server) {
 	if cs.Peer == "not-reading" {
 		h.C.TakeAll()
 		h.C.SetOutCapacity(1) // the peer has stopped reading: every further write blocks
+	}
+	if cs.ResetLatest && len(x.opened) > 0 {
+		h.SendFrames(peer.RstStream(x.opened[len(x.opened)-1], 8))
 	}
 	callsBefore := len(h.Calls)
 	goBefore := len(h.GoAways)
@@ -486,6 +492,41 @@ func runC10(c *fw.Ctx) {
 		}
 	}
 	c.Family("offences-with-a-flow-blocked-response")
+	// the peer resets the stream it opened last, then commits the offence
+	for _, off := range c10Offences {
+		for before := 1; before <= 2; before++ {
+			for _, state := range []string{"blocked", "running", "done"} {
+				for _, tr := range []string{"none", "request", "grant"} {
+					for _, pr := range []string{"silent", "closes"} {
+						if tr == "grant" && state != "blocked" {
+							continue
+						}
+						if item++; !c.Mine(item) {
+							continue
+						}
+						cs := c10Case{Offence: off.Name, Before: before, Running: state == "running" || (state == "blocked" && before == 2), Trailing: tr, Peer: pr, Blocked: state == "blocked", ResetLatest: true}
+						if cs.Blocked && off.Name == "connection-window-overflow" {
+							continue
+						}
+						v, h := c10Exec(cs)
+						js, _ := json.Marshal(cs)
+						c.Eval(nt(true, js))
+						c.AddTransitions(int64(h.Events))
+						c.AddTraces(1)
+						c.State(fw.Hash(h.Digest()))
+						if v != nil {
+							c.Violate(*v)
+							c.Outcome(v.Rule)
+						} else {
+							c.Outcome("truthful-and-returns")
+						}
+						h.Close()
+					}
+				}
+			}
+		}
+	}
+	c.Family("peer-resets-latest-stream-then-offends")
 	for p := 0; p <= 7; p++ {
 		if item++; !c.Mine(item) {
 			continue
